@@ -200,6 +200,11 @@ def run_sequence(seq, g, counters, viol):
     a = make(t, probe, xp)
     f1 = tmpfile("one.h5")
     f2 = tmpfile("two.h5")
+    f1s, f2s = f1, f2
+    if len(seq) % 2:
+        import pathlib
+
+        f1, f2 = pathlib.Path(f1), pathlib.Path(f2)  # path objects instead of strings in half of the sequences
     gA = np.random.default_rng(1)
     data = {"A": Samples(xp.asarray(gA.normal(0.0, 1.0, (80, 1))), xp=xp, parameters=list(t.parameters)), "B": Samples(xp.asarray(gA.normal(1.5, 0.5, (80, 1))), xp=xp, parameters=list(t.parameters))}
     cms = []
@@ -300,8 +305,8 @@ def run_sequence(seq, g, counters, viol):
             except Exception as exc:  # noqa: BLE001
                 viol.append({"mech": "C14/resume-from-file-then-sample-raises", "detail": f"sequence {seq} [{os.path.basename(path)}]: {type(exc).__name__}: {str(exc)[:200]}"})
     finally:
-        rm_tmp(f1)
-        rm_tmp(f2)
+        rm_tmp(f1s)
+        rm_tmp(f2s)
 
 
 def run_case(case):
